@@ -187,10 +187,10 @@ func genC17(rt *rapid.T) core.Scenario {
 		sc.FailAt = -1
 		sc.Subscribe = false
 		sc.CancelAtP1 = 0
+		sc.Tape = core.DrawTape(rt, 200)
 	} else if sc.CancelAtP1 == 0 && rapid.IntRange(0, 3).Draw(rt, "twin") == 3 {
 		sc.Twin = true
 		sc.FailAt = -1
-		sc.Tape = core.DrawTape(rt, 200)
 		sc.Tape = core.DrawTape(rt, 200)
 	}
 	return sc
